@@ -18,6 +18,7 @@ mod c12;
 mod c14;
 mod c15;
 mod c16;
+mod c17;
 mod c18;
 mod c19;
 mod c20;
@@ -45,6 +46,7 @@ fn main() {
         "c12" => c12::run(seed, count, &outdir, "c12").unwrap(),
         "c13" => c12::run(seed, count, &outdir, "c13").unwrap(),
         "c12-deep" => c12::deep_child(),
+        "c17" => c17::run(seed, count, &outdir).unwrap(),
         "c18" => c18::run(seed, count, &outdir).unwrap(),
         "c19" => c19::run(seed, count, &outdir).unwrap(),
         "c16" => c16::run(seed, count, &outdir).unwrap(),
